@@ -192,6 +192,67 @@ impl Dg {
         Dg::from_snap(&Snap::of(g))
     }
 
+    /// Lossless text form, for handing a decoded diagram from a child process to the harness
+    /// (floats as bit patterns, ring elements as decimal strings).
+    pub fn to_wire(&self) -> String {
+        let zw = |z: &Zw| serde_json::json!({"c": z.c.iter().map(|x| x.to_string()).collect::<Vec<_>>(), "e": z.e});
+        let vt = |t: &VT| match t {
+            VT::B => 0i64,
+            VT::Z => 1,
+            VT::X => 2,
+            VT::Other(k) => 100 + *k as i64,
+        };
+        serde_json::json!({
+            "verts": self.verts.iter().map(|v| serde_json::json!([v.id, vt(&v.ty), v.num, v.den, v.qubit.to_bits().to_string(), v.row.to_bits().to_string()])).collect::<Vec<_>>(),
+            "edges": self.edges,
+            "inputs": self.inputs,
+            "outputs": self.outputs,
+            "scalar": match &self.scalar { Sc::Exact(z) => serde_json::json!({"exact": zw(z)}), Sc::Float(a, b) => serde_json::json!({"float": [a.to_bits().to_string(), b.to_bits().to_string()]}) },
+            "scalar_dyadic": self.scalar_dyadic.as_ref().map(zw),
+        })
+        .to_string()
+    }
+
+    pub fn from_wire(s: &str) -> Option<Dg> {
+        let v: serde_json::Value = serde_json::from_str(s).ok()?;
+        let zw = |j: &serde_json::Value| -> Option<Zw> {
+            let c = j.get("c")?.as_array()?;
+            let mut out = Zw::zero();
+            for i in 0..4 {
+                out.c[i] = c.get(i)?.as_str()?.parse::<BigInt>().ok()?;
+            }
+            out.e = j.get("e")?.as_i64()?;
+            Some(out)
+        };
+        let f = |j: &serde_json::Value| -> Option<f64> { Some(f64::from_bits(j.as_str()?.parse::<u64>().ok()?)) };
+        let mut verts = vec![];
+        for x in v.get("verts")?.as_array()? {
+            let a = x.as_array()?;
+            let ty = match a.get(1)?.as_i64()? {
+                0 => VT::B,
+                1 => VT::Z,
+                2 => VT::X,
+                k => VT::Other((k - 100) as u8),
+            };
+            verts.push(DV { id: a.first()?.as_u64()? as usize, ty, num: a.get(2)?.as_i64()?, den: a.get(3)?.as_i64()?, qubit: f(a.get(4)?)?, row: f(a.get(5)?)? });
+        }
+        let edges: Vec<(usize, usize, bool)> = serde_json::from_value(v.get("edges")?.clone()).ok()?;
+        let inputs: Vec<usize> = serde_json::from_value(v.get("inputs")?.clone()).ok()?;
+        let outputs: Vec<usize> = serde_json::from_value(v.get("outputs")?.clone()).ok()?;
+        let sc = v.get("scalar")?;
+        let scalar = if let Some(z) = sc.get("exact") {
+            Sc::Exact(zw(z)?)
+        } else {
+            let a = sc.get("float")?.as_array()?;
+            Sc::Float(f(a.first()?)?, f(a.get(1)?)?)
+        };
+        let scalar_dyadic = match v.get("scalar_dyadic") {
+            Some(j) if !j.is_null() => Some(zw(j)?),
+            _ => None,
+        };
+        Some(Dg { verts, edges, inputs, outputs, scalar, scalar_dyadic })
+    }
+
     pub fn tcount(&self) -> usize {
         self.verts
             .iter()
